@@ -107,12 +107,21 @@ func cRun(t *testing.T, r *fw.Run, key string, sc *cScript, prop string) {
 	r.Eval(fw.Hash(string(desc)), len(obs.Attempts) >= 2)
 }
 
-var cIDs = []string{"a", "b", "", "x\x00y", "evt-000000000000000000000000000000000000000000000001", "7", " spaced ", "é"}
+var cIDs = []string{"a", "b", "", "x\x00y", "evt-000000000000000000000000000000000000000000000001", "7", " spaced ", "é", "ctl\x01x", "\x7f", "u\x1fs", "tab\there", "\x1b[31m"}
 
 // cGenStream builds a stream with k events and a chosen ending.
 func cGenStream(rng *rand.Rand, withRetry bool) string {
 	var b strings.Builder
 	n := rng.IntN(4)
+	if rng.IntN(15) == 0 {
+		// one ID, then several KiB of events without one: the connection's idea of the last event
+		// ID has to survive many refills of the read buffer
+		b.WriteString("id: " + cIDs[rng.IntN(len(cIDs))] + "\ndata: first\n\n")
+		for k := 0; k < 60+rng.IntN(200); k++ {
+			b.WriteString("data: filler " + strconv.Itoa(k) + " " + strings.Repeat("f", rng.IntN(80)) + "\n\n")
+		}
+		n = rng.IntN(2)
+	}
 	for i := 0; i < n; i++ {
 		switch rng.IntN(6) {
 		case 0:
@@ -159,7 +168,7 @@ func cGenStream(rng *rand.Rand, withRetry bool) string {
 	return b.String()
 }
 
-var cRetryVals = []string{"1", "15", "1000", "1000000000000", "0", "+5", "-1", "1.5", "", "abc", "007", "20 "}
+var cRetryVals = []string{"1", "15", "1000", "1000000000000", "0", "+5", "-1", "1.5", "", "abc", "007", "20 ", "000000000000000000000015", "00000000000000000000000000000000000000002000"}
 
 func cGenAttempt(rng *rand.Rand, withRetry bool, allowReject bool, allowCancel bool) cAttempt {
 	a := cAttempt{CancelAtOff: -1}
@@ -211,8 +220,11 @@ func TestC10(t *testing.T) {
 		rng := r.Rand("S", i)
 		sc := &cScript{Backoff: cBackoff{InitialInterval: int64(time.Millisecond), Multiplier: 1, Jitter: 0.5, MaxRetries: 0}, Body: bodies[rng.IntN(len(bodies))]}
 		na := 1 + rng.IntN(12)
+		if i%40 == 3 {
+			na = 100 + rng.IntN(200)
+		}
 		for k := 0; k < na; k++ {
-			sc.Attempts = append(sc.Attempts, cGenAttempt(rng, false, rng.IntN(30) == 0, rng.IntN(30) == 0))
+			sc.Attempts = append(sc.Attempts, cGenAttempt(rng, false, rng.IntN(30) == 0 && na < 50, rng.IntN(30) == 0 && na < 50))
 		}
 		cRun(t, r, fw.Key("S", i), sc, "C10")
 		if i < 32 {
@@ -312,11 +324,14 @@ func TestC11(t *testing.T) {
 				}
 			}
 		}
+		sc.TimeoutTErrs = rng.IntN(3) == 0
 		if rng.IntN(25) == 0 {
 			sc.CancelBefore = true
 		}
 		if rng.IntN(3) == 0 {
 			sc.Deadline = true
+		} else if rng.IntN(3) == 0 {
+			sc.Cause = true
 		} else if rng.IntN(8) == 0 {
 			sc.CancelInWait = map[int]bool{rng.IntN(na): true}
 		}
@@ -387,6 +402,9 @@ func TestC12(t *testing.T) {
 			sc.Backoff.MaxRetries = maxRet[rng.IntN(len(maxRet))]
 		}
 		na := 1 + rng.IntN(30)
+		if i%40 == 3 {
+			na = 150 + rng.IntN(150) // a long life: hundreds of attempts
+		}
 		rejects := rng.IntN(4) == 0
 		sc.CustomValidator = rejects
 		for k := 0; k < na; k++ {
